@@ -62,8 +62,20 @@ class AllocGen:
                 self.types[nm] = self.types[a]
                 self.refs.append(nm)
                 self.site_of[nm] = [self.site_of[a], self.site_of[b]]
+                st = {"k": "select", "name": nm, "cond": r.choice([0, 1]), "a": a, "b": b, "via": r.choice(["select", "select", "if", "if", "for", "for", "while"]), "trips": r.choice([0, 1, 2]), "inner_cast": r.random() < 0.5}
+                direct = not isinstance(self.site_of[a], list) and not isinstance(self.site_of[b], list) and a in self.allocs and b in self.allocs
+                if st["via"] == "for" and direct and r.random() < 0.7:
+                    # the loop-carried value is used inside the loop (first trip: %a, later trips: %b - resolved at run time through
+                    # the allocation instance); half of the time the result of the loop is not used at all
+                    self.tag += 1
+                    st["inloop"] = self.tag
+                    st["trips"] = r.choice([1, 2, 3])
+                    if r.random() < 0.5:
+                        st["unused_result"] = True
+                        self.refs.remove(nm)
+                        return st
                 self.joins.append(nm)
-                return {"k": "select", "name": nm, "cond": r.choice([0, 1]), "a": a, "b": b, "via": r.choice(["select", "select", "if", "if", "for", "while"]), "trips": r.choice([0, 1, 2]), "inner_cast": r.random() < 0.5}
+                return st
         if k == "alloc":
             nm = self.fresh("b")
             el = r.choice(list(ELB))
@@ -164,8 +176,14 @@ def emit(ast, p=(0, 0), fname="f", wrap=True) -> str:
                 e(ind, f'{nm_}_n = arith.constant {s["n"]} : index')
                 e(ind, f'{nm_}_a = "snax.alloc"({nm_}_s, {nm_}_n) <{{memory_space = "{s["space"]}", alignment = {s["align"]} : i64}}> : (index, index) -> {st_}')
                 e(ind, f"{nm_} = builtin.unrealized_conversion_cast {nm_}_a : {st_} to {T[nm_]}")
+                if births:
+                    e(ind, f'"test.op"({nm_}) {{vtag = {9000 + s["site"]} : i64, vsites = [{s["site"]} : i64]}} : ({T[nm_]}) -> ()')
             elif k == "alloc":
                 e(ind, f'{s["name"]} = memref.alloc() {{alignment = {s["align"]} : i64, vsite = {s["site"]} : i64}} : {T[s["name"]]}')
+                if births:
+                    # name the allocation instance at once (a use with a static site), so that a use that only knows its buffer at
+                    # run time (a loop-carried value) can be attributed to it
+                    e(ind, f'"test.op"({s["name"]}) {{vtag = {9000 + s["site"]} : i64, vsites = [{s["site"]} : i64]}} : ({T[s["name"]]}) -> ()')
             elif k == "view":
                 e(ind, f'{s["name"]} = memref.subview {s["src"]}[{s["off"]}][{s["len"]}][1] : {T[s["src"]]} to {T[s["name"]]}')
             elif k == "cast" and s.get("unranked"):
@@ -205,6 +223,8 @@ def emit(ast, p=(0, 0), fname="f", wrap=True) -> str:
                     ty = T[s["name"]]
                     e(ind, f'%ub{s["name"][1:]} = arith.select %p{s["cond"]}, %c0, %c{max(1, s["trips"])} : index')
                     e(ind, f'{s["name"]} = scf.for %q{s["name"][1:]} = %c0 to %ub{s["name"][1:]} step %c1 iter_args(%m{s["name"][1:]} = {s["a"]}) -> ({ty}) {{')
+                    if s.get("inloop"):
+                        e(ind + 1, f'"test.op"(%m{s["name"][1:]}) {{vtag = {s["inloop"]} : i64, vsites = [-1 : i64]}} : ({ty}) -> ()')
                     e(ind + 1, f'scf.yield {s["b"]} : {ty}')
                     e(ind, "}")
                 else:
@@ -227,6 +247,7 @@ def emit(ast, p=(0, 0), fname="f", wrap=True) -> str:
                 e(ind, "func.call @g(%p0, %p1) : (i1, i1) -> ()")
 
     site_of_name: dict = {}
+    births = any(s_.get("inloop") for s_ in _flat(ast["body"]))
 
     def scan(body):
         for s in body:
@@ -251,7 +272,7 @@ def emit(ast, p=(0, 0), fname="f", wrap=True) -> str:
     if wrap:
         e(0, "builtin.module {")
     e(1, f"func.func @{fname}(%p0 : i1, %p1 : i1) {{")
-    for c in range(3):
+    for c in range(4):
         e(2, f"%c{c} = arith.constant {c} : index")
     stmts(2, ast["body"])
     e(2, "func.return")
